@@ -16,6 +16,9 @@ Extract/C09x.vos Extract/C09x.vok Extract/C09x.required_vos: Extract/C09x.v Mode
 Extract/C10x.vo Extract/C10x.glob Extract/C10x.v.beautified Extract/C10x.required_vo: Extract/C10x.v Model/RetainCodec.vo Model/CrashFs.vo
 Extract/C10x.vio: Extract/C10x.v Model/RetainCodec.vio Model/CrashFs.vio
 Extract/C10x.vos Extract/C10x.vok Extract/C10x.required_vos: Extract/C10x.v Model/RetainCodec.vos Model/CrashFs.vos
+Extract/C11Fx.vo Extract/C11Fx.glob Extract/C11Fx.v.beautified Extract/C11Fx.required_vo: Extract/C11Fx.v Model/Stbc.vo Model/StbcFmt.vo Model/StbcSections.vo
+Extract/C11Fx.vio: Extract/C11Fx.v Model/Stbc.vio Model/StbcFmt.vio Model/StbcSections.vio
+Extract/C11Fx.vos Extract/C11Fx.vok Extract/C11Fx.required_vos: Extract/C11Fx.v Model/Stbc.vos Model/StbcFmt.vos Model/StbcSections.vos
 Extract/C11x.vo Extract/C11x.glob Extract/C11x.v.beautified Extract/C11x.required_vo: Extract/C11x.v Model/Stbc.vo Spec/C11Judge.vo
 Extract/C11x.vio: Extract/C11x.v Model/Stbc.vio Spec/C11Judge.vio
 Extract/C11x.vos Extract/C11x.vok Extract/C11x.required_vos: Extract/C11x.v Model/Stbc.vos Spec/C11Judge.vos
@@ -121,6 +124,12 @@ Model/Stbc.vos Model/Stbc.vok Model/Stbc.required_vos: Model/Stbc.v
 Model/StbcEnc.vo Model/StbcEnc.glob Model/StbcEnc.v.beautified Model/StbcEnc.required_vo: Model/StbcEnc.v Model/Stbc.vo
 Model/StbcEnc.vio: Model/StbcEnc.v Model/Stbc.vio
 Model/StbcEnc.vos Model/StbcEnc.vok Model/StbcEnc.required_vos: Model/StbcEnc.v Model/Stbc.vos
+Model/StbcFmt.vo Model/StbcFmt.glob Model/StbcFmt.v.beautified Model/StbcFmt.required_vo: Model/StbcFmt.v Model/Stbc.vo
+Model/StbcFmt.vio: Model/StbcFmt.v Model/Stbc.vio
+Model/StbcFmt.vos Model/StbcFmt.vok Model/StbcFmt.required_vos: Model/StbcFmt.v Model/Stbc.vos
+Model/StbcSections.vo Model/StbcSections.glob Model/StbcSections.v.beautified Model/StbcSections.required_vo: Model/StbcSections.v Model/Stbc.vo Model/StbcFmt.vo
+Model/StbcSections.vio: Model/StbcSections.v Model/Stbc.vio Model/StbcFmt.vio
+Model/StbcSections.vos Model/StbcSections.vok Model/StbcSections.required_vos: Model/StbcSections.v Model/Stbc.vos Model/StbcFmt.vos
 Model/WebIde.vo Model/WebIde.glob Model/WebIde.v.beautified Model/WebIde.required_vo: Model/WebIde.v 
 Model/WebIde.vio: Model/WebIde.v 
 Model/WebIde.vos Model/WebIde.vok Model/WebIde.required_vos: Model/WebIde.v 
@@ -148,6 +157,9 @@ Proofs/C09Proofs.vos Proofs/C09Proofs.vok Proofs/C09Proofs.required_vos: Proofs/
 Proofs/C10Proofs.vo Proofs/C10Proofs.glob Proofs/C10Proofs.v.beautified Proofs/C10Proofs.required_vo: Proofs/C10Proofs.v Model/RetainCodec.vo Model/CrashFs.vo
 Proofs/C10Proofs.vio: Proofs/C10Proofs.v Model/RetainCodec.vio Model/CrashFs.vio
 Proofs/C10Proofs.vos Proofs/C10Proofs.vok Proofs/C10Proofs.required_vos: Proofs/C10Proofs.v Model/RetainCodec.vos Model/CrashFs.vos
+Proofs/C11Fmt.vo Proofs/C11Fmt.glob Proofs/C11Fmt.v.beautified Proofs/C11Fmt.required_vo: Proofs/C11Fmt.v Model/Stbc.vo Model/StbcFmt.vo Model/StbcSections.vo Proofs/C11Proofs.vo
+Proofs/C11Fmt.vio: Proofs/C11Fmt.v Model/Stbc.vio Model/StbcFmt.vio Model/StbcSections.vio Proofs/C11Proofs.vio
+Proofs/C11Fmt.vos Proofs/C11Fmt.vok Proofs/C11Fmt.required_vos: Proofs/C11Fmt.v Model/Stbc.vos Model/StbcFmt.vos Model/StbcSections.vos Proofs/C11Proofs.vos
 Proofs/C11Frame.vo Proofs/C11Frame.glob Proofs/C11Frame.v.beautified Proofs/C11Frame.required_vo: Proofs/C11Frame.v Model/Stbc.vo Model/StbcEnc.vo Proofs/C11Proofs.vo
 Proofs/C11Frame.vio: Proofs/C11Frame.v Model/Stbc.vio Model/StbcEnc.vio Proofs/C11Proofs.vio
 Proofs/C11Frame.vos Proofs/C11Frame.vok Proofs/C11Frame.required_vos: Proofs/C11Frame.v Model/Stbc.vos Model/StbcEnc.vos Proofs/C11Proofs.vos
@@ -238,9 +250,9 @@ Properties/C09.vos Properties/C09.vok Properties/C09.required_vos: Properties/C0
 Properties/C10.vo Properties/C10.glob Properties/C10.v.beautified Properties/C10.required_vo: Properties/C10.v Model/RetainCodec.vo Model/CrashFs.vo Proofs/C10Proofs.vo
 Properties/C10.vio: Properties/C10.v Model/RetainCodec.vio Model/CrashFs.vio Proofs/C10Proofs.vio
 Properties/C10.vos Properties/C10.vok Properties/C10.required_vos: Properties/C10.v Model/RetainCodec.vos Model/CrashFs.vos Proofs/C10Proofs.vos
-Properties/C11.vo Properties/C11.glob Properties/C11.v.beautified Properties/C11.required_vo: Properties/C11.v Model/Stbc.vo Model/StbcEnc.vo Proofs/C11Proofs.vo Proofs/C11Frame.vo
-Properties/C11.vio: Properties/C11.v Model/Stbc.vio Model/StbcEnc.vio Proofs/C11Proofs.vio Proofs/C11Frame.vio
-Properties/C11.vos Properties/C11.vok Properties/C11.required_vos: Properties/C11.v Model/Stbc.vos Model/StbcEnc.vos Proofs/C11Proofs.vos Proofs/C11Frame.vos
+Properties/C11.vo Properties/C11.glob Properties/C11.v.beautified Properties/C11.required_vo: Properties/C11.v Model/Stbc.vo Model/StbcEnc.vo Model/StbcFmt.vo Model/StbcSections.vo Proofs/C11Proofs.vo Proofs/C11Frame.vo Proofs/C11Fmt.vo
+Properties/C11.vio: Properties/C11.v Model/Stbc.vio Model/StbcEnc.vio Model/StbcFmt.vio Model/StbcSections.vio Proofs/C11Proofs.vio Proofs/C11Frame.vio Proofs/C11Fmt.vio
+Properties/C11.vos Properties/C11.vok Properties/C11.required_vos: Properties/C11.v Model/Stbc.vos Model/StbcEnc.vos Model/StbcFmt.vos Model/StbcSections.vos Proofs/C11Proofs.vos Proofs/C11Frame.vos Proofs/C11Fmt.vos
 Properties/C12.vo Properties/C12.glob Properties/C12.v.beautified Properties/C12.required_vo: Properties/C12.v Model/LexSink.vo Proofs/C12Proofs.vo
 Properties/C12.vio: Properties/C12.v Model/LexSink.vio Proofs/C12Proofs.vio
 Properties/C12.vos Properties/C12.vok Properties/C12.required_vos: Properties/C12.v Model/LexSink.vos Proofs/C12Proofs.vos
